@@ -270,9 +270,154 @@ def run(ctx: Ctx, driver: Driver):
     ctx.sample(cases[17])
     ctx.sample(cases[-1])
     compare_with_model(ctx, "waiters", cases, outs, lines, driver)
+    browser_streams(ctx, driver, rng, loop)
     parse_streams(ctx, driver, rng)
     callback_robustness(ctx, rng, loop)
     loop.close()
+
+
+# ---------------------------------------------------------------- the mDNS browser path (service state changes, 0.5 s resolve debounce)
+def browser_expected(evs):
+    """reference semantics of the browser callback: Added/Updated arms a 0.5 s resolve timer for the service unless one is
+    pending; Removed cancels a pending one; when the timer fires the record is processed (= an advertisement for the id).
+    Returns (outcomes per waiter, model events, tie) - tie = a timer fires at the very instant of a waiter's deadline."""
+    now = 0
+    timers = {}     # id -> fire time
+    model = []
+    flat = []       # ('S'|'A'|'C'|'T', ...) for the waiter reference
+    tie = False
+    deadlines = {}
+    for ev in evs:
+        if ev[0] == "S":
+            flat.append(ev)
+            deadlines[ev[1]] = now + ev[3]
+        elif ev[0] in ("BA", "BU"):
+            if ev[1] not in timers:
+                timers[ev[1]] = now + 500
+        elif ev[0] == "BR":
+            timers.pop(ev[1], None)
+        elif ev[0] == "C":
+            flat.append(ev)
+        elif ev[0] == "T":
+            target = max(now, ev[1])
+            for did, ft in sorted(timers.items(), key=lambda x: x[1]):
+                if ft <= target:
+                    if ft in deadlines.values():
+                        tie = True
+                    flat.append(("T", ft))
+                    flat.append(("A", did))
+                    del timers[did]
+            flat.append(("T", target))
+            now = target
+    return expected(flat), flat, tie
+
+
+async def run_browser_schedule(loop, evs):
+    import aiohomekit.zeroconf as zcmod
+    from zeroconf import ServiceStateChange
+    t0 = loop.time()
+    out = {}
+    tasks = {}
+    errors = []
+    ctl = IpController(char_cache=CharacteristicCacheMemory(), zeroconf_instance=MagicMock())
+
+    class Info(FakeInfo):
+        def load_from_cache(self, zc, now=None):
+            return True
+
+    def mk_info(service_type, name):
+        did = IDS[int(name.split(".")[0][-1])]
+        i = mdns_info(did)
+        return Info(i.name.split(".")[0], i._addrs, i.decoded_properties)
+
+    async def waiter(k, did, timeout):
+        try:
+            d = await ctl.async_find(did, timeout)
+            out[k] = f"found@{round((loop.time() - t0) * 1000)}" if d is not None else "none"
+        except AccessoryNotFoundError:
+            out[k] = f"notfound@{round((loop.time() - t0) * 1000)}"
+        except asyncio.CancelledError:
+            out[k] = "cancelled"
+            raise
+        except Exception as e:  # noqa: BLE001
+            out[k] = "exc:" + type(e).__name__
+    with mock.patch.object(zcmod, "AsyncServiceInfo", mk_info):
+        for ev in evs:
+            try:
+                if ev[0] == "S":
+                    tasks[ev[1]] = asyncio.ensure_future(waiter(ev[1], IDS[ev[2]], ev[3] / 1000))
+                elif ev[0] in ("BA", "BU", "BR"):
+                    change = {"BA": ServiceStateChange.Added, "BU": ServiceStateChange.Updated, "BR": ServiceStateChange.Removed}[ev[0]]
+                    ctl._handle_service(MagicMock(), ctl.hap_type, f"dev{ev[1]}.{ctl.hap_type}", change)
+                elif ev[0] == "C":
+                    t = tasks.get(ev[1])
+                    if t and not t.done():
+                        t.cancel()
+                elif ev[0] == "T":
+                    target = t0 + ev[1] / 1000
+                    if target > loop.time():
+                        await asyncio.sleep(target - loop.time())
+            except Exception as e:  # noqa: BLE001
+                errors.append(type(e).__name__)
+            for _ in range(6):
+                await asyncio.sleep(0)
+        pending = [k for k, t in tasks.items() if not t.done()]
+        for t in tasks.values():
+            t.cancel()
+        await asyncio.gather(*tasks.values(), return_exceptions=True)
+        for k in pending:
+            out[k] = "pending"
+        await ctl.async_stop() if hasattr(ctl, "_browser") else None
+        for h in list(ctl._resolve_later.values()):
+            h.cancel()
+    return out, errors
+
+
+def browser_streams(ctx, driver, rng, loop):
+    alpha = [("S", 1, 7, 5000), ("S", 2, 7, 9000), ("BA", 7), ("BU", 7), ("BR", 7), ("BA", 8), ("dt", 200), ("dt", 400), ("dt", 700), ("dt", 3100)]
+    depth = ctx.budget(5, 6)
+    seqs = []
+    for d in range(2, depth + 1):
+        for seq in itertools.product(alpha, repeat=d):
+            ks = [e[1] for e in seq if e[0] == "S"]
+            if len(ks) != len(set(ks)) or not ks or not any(e[0] in ("BA", "BU") for e in seq):
+                continue
+            seqs.append(seq)
+    if len(seqs) > ctx.budget(1500, 30000):
+        seqs = rng.sample(seqs, ctx.budget(1500, 30000))
+    cases, outs, lines = [], [], []
+    skipped = 0
+    for seq in seqs:
+        now = 0
+        evs = []
+        for e in seq:
+            if e[0] == "dt":
+                now += e[1]
+                evs.append(("T", now))
+            else:
+                evs.append(e)
+        evs.append(("T", now + 12000))
+        want, flat, tie = browser_expected(evs)
+        if tie:
+            skipped += 1
+            continue
+        out, errors = loop.run_until_complete(run_browser_schedule(loop, evs))
+        ctx.evaluations += 1
+        case = {"stream": "browser", "events": [tok(e) for e in evs]}
+        ctx.nontrivial.add(("browser", tuple(case["events"])))
+        if errors:
+            ctx.violation(f"callback/browser/{errors[0]}", f"the browser callback raised {errors[0]}", case)
+        if out != want:
+            bad = sorted(k for k in set(out) | set(want) if out.get(k) != want.get(k))
+            k0 = bad[0]
+            sig = "waiter/browser/" + ("not-woken" if str(want.get(k0)).startswith("found") else "wrong-outcome")
+            ctx.violation(sig, f"mDNS browser: waiter {k0} ended with {out.get(k0)} but the property demands {want.get(k0)} (service events {[tok(e) for e in evs]})", case)
+        cases.append(case)
+        outs.append(" ".join(f"{k}={out[k]}" for k in sorted(out)))
+        lines.append("wt.run " + " ".join(tok(e) for e in flat))
+        ctx.dist["browser"] += 1
+    ctx.dist["browser:skipped-ties"] += skipped
+    compare_with_model(ctx, "browser", cases, outs, lines, driver)
 
 
 def parse_streams(ctx, driver, rng):
